@@ -81,12 +81,12 @@ func bodyNoDefers(f *gofacts.File, fd *ast.FuncDecl) string {
 }
 
 type extracted struct {
-	sendPop, emptySend, sendDefers, recvDefers, acceptCmp      string
-	quitOnce, quitOnExit, quitDec, quitCloseQ, quitCloseConn   bool
-	startIncOnce, sendEnqueues, closeClosesQueue               bool
-	sendLoopShape, recvLoopShape, sendSetsDeadline             bool
-	doStartsSession, acceptShape, queueShape                   bool
-	quitShape, recoveryShape                                   bool
+	sendPop, emptySend, sendDefers, recvDefers, acceptCmp    string
+	quitOnce, quitOnExit, quitDec, quitCloseQ, quitCloseConn bool
+	startIncOnce, sendEnqueues, closeClosesQueue             bool
+	sendLoopShape, recvLoopShape, sendSetsDeadline           bool
+	doStartsSession, acceptShape, queueShape                 bool
+	quitShape, recoveryShape                                 bool
 }
 
 func doExtract(repo string) extracted {
